@@ -222,10 +222,12 @@ class ConcHarness:
                             why = "a closed connection occupies a slot"
                         if why and "c07" not in c04:
                             c04["c07"] = f"request for {origin} is queued at quiescence although {why}; pool={pool!r} {conns}"
-            # C12 head-of-line: at full quiescence (nothing runnable, no I/O in flight - only the server may still speak) a request
+            # C12 head-of-line: at full quiescence (nothing runnable, no I/O in flight other than reads waiting for the server to
+            # speak) a request
             # that was handed an HTTP/2 connection with a free stream slot must be on the wire; if it is not, it waits behind
             # another request's *response*, which the server is free to withhold for ever
-            if not world.loop.live_ready() and not world.net.pending and "c12" not in c04:
+            starving_reads_only = all(op.kind == "read" and not op.tr.inbound and not op.tr.peer_eof and not op.tr.closed for op in world.net.pending)
+            if not world.loop.live_ready() and starving_reads_only and "c12" not in c04:
                 seen = None
                 for pr in pool._requests:
                     c = getattr(pr, "connection", None)
@@ -682,6 +684,9 @@ def scenarios(pid, tier):
                 out.append(S(ct, ["req:a:w", "hold:a", "req:b", "req:a"], max_connections=1, early=True))
             out.append(S("h11", ["hold:a", "req:b:pt=5", "req:b"], max_connections=1))
             out.append(S("h2exp11", ["req:a", "req:a", "req:a"], max_connections=2))
+            # a caller with a suspending trace callback is cancelled: the waiter behind it must still be served
+            for ct in (["h11", "h2alpn"] if quick else ["h11", "h11tls", "h2alpn", "fwd", "tunnel", "socks"]):
+                out.append(S(ct, ["req:a:v", "req:b"], max_connections=1, cancels=1, styles=["scope"], trace=True))
     if pid in ("C05", "C06"):
         cts = list(scen.CONN_TYPES)
         for ct in cts:
